@@ -295,3 +295,34 @@ Definition chk_smap (id : nat) (inputs : list (arg (list Z))) (out_axes : list (
 
 Definition chk_vmap (id : nat) (inputs : list (arg (list Z))) (out_axes : list (option nat)) (obs : list (res (list Z))) : bool :=
   list_eqb res_eqb (vmap_spec _ _ [] [] (fn id) inputs out_axes) obs.
+
+(* ---------------------------------------------------------------- forest_math.unite(x, y, op)
+     for k in x.keys() | y.keys():
+         if k in x and k in y: out[k] = op(x[k], y[k])       (x first, y second)
+         elif k in x: out[k] = x[k]
+         else: out[k] = y[k]
+   dicts as key-sorted association lists (JAX flattens dicts in sorted key order) *)
+Fixpoint lookup (k : nat) (d : list (nat * list Z)) : option (list Z) :=
+  match d with
+  | [] => None
+  | (k', v) :: r => if Nat.eqb k k' then Some v else lookup k r
+  end.
+
+Definition unite_op (id : nat) (a b : Z) : Z :=
+  match id with
+  | 0%nat => a + b
+  | 1%nat => a - b
+  | 2%nat => 2 * a - 3 * b
+  | _ => a * b + a
+  end.
+
+Definition unite (id : nat) (keys : list nat) (x y : list (nat * list Z)) : list (nat * list Z) :=
+  flat_map (fun k => match lookup k x, lookup k y with
+                     | Some a, Some b => [(k, map2 (unite_op id) a b)]
+                     | Some a, None => [(k, a)]
+                     | None, Some b => [(k, b)]
+                     | None, None => []
+                     end) keys.
+
+Definition chk_unite (id : nat) (keys : list nat) (x y obs : list (nat * list Z)) : bool :=
+  list_eqb (fun p q => Nat.eqb (fst p) (fst q) && zl_eqb (snd p) (snd q)) (unite id keys x y) obs.
